@@ -367,7 +367,7 @@ pub fn load_known_findings() -> Vec<KnownFinding> {
 fn matches_known<'a>(known: &'a [KnownFinding], prop: &str, kind: &str, sig: &str) -> Option<&'a KnownFinding> {
     known
         .iter()
-        .find(|k| k.property == prop && k.kind == kind && !k.sig.is_empty() && k.sig == sig)
+        .find(|k| k.property == prop && (k.kind == kind || k.kind == "*") && !k.sig.is_empty() && k.sig == sig)
 }
 
 pub fn orchestrate(prop: &Property, tier: &str, base_seed: u64, runs_override: Option<u64>, workers: usize, max_wall_s: u64) -> i32 {
